@@ -197,6 +197,12 @@ func runC11(w *World, r *Report) {
 	if f := w.fx(r, "cache", "Flashback", "HasHash"); f != nil {
 		fn := f.fn
 		h := fn.Params[1].Name()
+		if len(callsBySuffix(fn, "BigCache).Get")) == 0 { // body moved into a helper shared with HasAddress
+			if hf, hp, _ := delegateForPath(fn, h); hf != nil {
+				fn, h = hf, hp.Name()
+				r.seen(shortFn(hf))
+			}
+		}
 		var getE []Edge
 		for _, c := range callsBySuffix(fn, "BigCache).Get") {
 			_, a := callArgs(c)
@@ -280,13 +286,25 @@ func runC11(w *World, r *Report) {
 			continue
 		}
 		fn := f.fn
-		setP := fn.Params[len(fn.Params)-1]
+		var setP ssa.Value = fn.Params[len(fn.Params)-1]
 		var gos []*ssa.Go
-		instrsOf(fn, func(in ssa.Instruction) {
-			if g, ok := in.(*ssa.Go); ok {
-				gos = append(gos, g)
+		collect := func() {
+			gos = nil
+			instrsOf(fn, func(in ssa.Instruction) {
+				if g, ok := in.(*ssa.Go); ok {
+					gos = append(gos, g)
+				}
+			})
+		}
+		collect()
+		var delegateSite ssa.CallInstruction
+		if len(gos) == 0 { // the loop was moved into a shared helper: analyse the helper with the set bound to its parameter
+			if h, hp, cs := delegateFor(fn, setP); h != nil {
+				fn, setP, delegateSite = h, hp, cs
+				r.seen(shortFn(h))
+				collect()
 			}
-		})
+		}
 		if len(gos) != 1 {
 			r.bad("skip-informed-peers", name+"/go", w.Pos(fn.Pos()), "one forwarding goroutine per peer", fmt.Sprintf("%d go statements", len(gos)))
 			continue
@@ -309,6 +327,15 @@ func runC11(w *World, r *Report) {
 		r.check(behind(g, absent), "skip-informed-peers", name+"/skip", lineOf(w, g), "send only to peers that are not in the set", "go statement reachable without crossing the absent edge of set[addr]")
 		// the client used belongs to the same ranged entry and the RPC matches
 		cl := closureOf(g.Call.Value)
+		if cl == nil && delegateSite != nil { // go send(…): the function value is a parameter, bound at the delegating call
+			if prm, ok := g.Call.Value.(*ssa.Parameter); ok {
+				for k, p2 := range fn.Params {
+					if p2 == prm && k < len(delegateSite.Common().Args) {
+						cl = closureOf(delegateSite.Common().Args[k])
+					}
+				}
+			}
+		}
 		rpc := 0
 		if cl != nil {
 			rpc = len(callsBySuffix(cl, ").GossipVrx")) + len(callsBySuffix(cl, ").GossipTrx"))
@@ -400,9 +427,9 @@ func runC11(w *World, r *Report) {
 			}
 			// signed message = createGossiperMessageToSign(self, item hash)
 			signed := false
-			for _, c := range callsTo2(f.fn, ".createGossiperMessageToSign") {
-				_, ca := callArgs(c)
-				if isSelfAddressCall(ca[0]) && strings.HasSuffix(pathOf(ca[1]), row.hashPath) {
+			for _, dc := range deepCalls(f.fn, func(c ssa.CallInstruction) bool { return strings.HasSuffix(calleeName(c), ".createGossiperMessageToSign") }, 2) {
+				_, ca := callArgs(dc.c)
+				if isSelfAddressCall(ca[0]) && strings.HasSuffix(dc.path(ca[1]), row.hashPath) {
 					signed = true
 				}
 			}
@@ -520,7 +547,7 @@ func runC12(w *World, r *Report) {
 	}
 	r.Extra["raw_list_reads"] = nReads
 
-	r.rule("decisions-on-verified-set", "every membership test that decides skip-self / skip-peer is a lookup in a map originating from verifyGossipers or from a literal holding the node's own fresh entry", 4)
+	r.rule("decisions-on-verified-set", "every membership test that decides skip-self / skip-peer is a lookup in a map originating from verifyGossipers or from a literal holding the node's own fresh entry", 2)
 	for _, fn := range w.RepoFuncs("gossip") {
 		instrsOf(fn, func(in ssa.Instruction) {
 			l, ok := in.(*ssa.Lookup)
@@ -558,19 +585,7 @@ func runC12(w *World, r *Report) {
 								allOK = false
 								continue
 							}
-							okArg := false
-							for _, ao := range origins(a[idx]) {
-								switch y := ao.(type) {
-								case *ssa.Call:
-									okArg = calleeName(y) == cn("gossip", "*gossiper", "verifyGossipers")
-								case *ssa.MakeMap:
-									for _, ref := range *y.Referrers() {
-										if mu, ok := ref.(*ssa.MapUpdate); ok && isSelfAddressCall(mu.Key) {
-											okArg = true
-										}
-									}
-								}
-							}
+							okArg := verifiedSetValue(w, a[idx], caller, 0)
 							if !okArg {
 								allOK = false
 							}
@@ -588,4 +603,59 @@ func runC12(w *World, r *Report) {
 			r.check(good, "decisions-on-verified-set", shortFn(fn)+"/lookup("+pathOf(l.Index)+")", lineOf(w, l), "membership decision uses a verified set", "map originates from "+desc)
 		})
 	}
+}
+
+// verifiedSetValue: does map value v (in function fn) originate from verifyGossipers, from a literal
+// holding the node's own entry, or from a parameter for which every caller passes such a value?
+func verifiedSetValue(w *World, v ssa.Value, fn *ssa.Function, depth int) bool {
+	if depth > 3 {
+		return false
+	}
+	ok := true
+	n := 0
+	for _, o := range origins(v) {
+		n++
+		switch y := o.(type) {
+		case *ssa.Call:
+			if calleeName(y) != cn("gossip", "*gossiper", "verifyGossipers") {
+				ok = false
+			}
+		case *ssa.MakeMap:
+			self := false
+			for _, ref := range *y.Referrers() {
+				if mu, isMU := ref.(*ssa.MapUpdate); isMU && isSelfAddressCall(mu.Key) {
+					self = true
+				}
+			}
+			if !self {
+				ok = false
+			}
+		case *ssa.Parameter:
+			idx := -1
+			for i, p := range fn.Params {
+				if p == y {
+					idx = i
+				}
+			}
+			calls := 0
+			if fn.Object() == nil || idx < 0 {
+				ok = false
+				break
+			}
+			for _, caller := range w.RepoFuncs("gossip") {
+				for _, c := range callsTo(caller, fn.Object().(interface{ FullName() string }).FullName()) {
+					calls++
+					if idx >= len(c.Common().Args) || !verifiedSetValue(w, c.Common().Args[idx], caller, depth+1) {
+						ok = false
+					}
+				}
+			}
+			if calls == 0 {
+				ok = false
+			}
+		default:
+			ok = false
+		}
+	}
+	return ok && n > 0
 }
